@@ -56,7 +56,7 @@ Fixpoint denote (s : spec) (c : ctx) (b : abody) (lbls : list (list Z)) {struct 
   | SBlock tn n _ =>
       match blocks_of tn (bblocks b) with
       | [] => VNull (implied_type n)
-      | bk :: _ => denote n c (bbody bk) (blabels bk)
+      | bk :: _ => prepare_body_val (denote n c (bbody bk) (blabels bk)) (bbody bk)
       end
   | SBlockList tn n _ _ =>
       let bl := blocks_of tn (bblocks b) in
@@ -119,8 +119,9 @@ Fixpoint denote (s : spec) (c : ctx) (b : abody) (lbls : list (list Z)) {struct 
       | [] => VNull (TMap ety)
       | bk :: _ =>
           match battrs (bbody bk) with
-          | [] => VMap ety []
-          | attrs => some_or_dyn (map_val (map (fun a => (fst a, attr_val c (snd a) ety)) attrs))
+          | [] => prepare_body_val (VMap ety []) (bbody bk)
+          | attrs => prepare_body_val
+                       (some_or_dyn (map_val (map (fun a => (fst a, attr_val c (snd a) ety)) attrs))) (bbody bk)
           end
       end
   | SBlockLabel i _ => VStr (nth (Z.to_nat i) lbls [])
